@@ -244,8 +244,9 @@ class Direct:
     ast object means the Python lambda it spells (operator names in function form have their LINQ meaning,
     dictionary literals are records)."""
 
-    def __init__(self, seq):
+    def __init__(self, seq, err=None):
         self.seq = seq
+        self.err = err          # the exception Python raised while computing this stream (list semantics: at once)
 
     @staticmethod
     def _fn(f):
@@ -255,30 +256,45 @@ class Direct:
             return eval(compile_expr(f), ops_namespace())
         return f
 
+    def _op(self, name, f):
+        if self.err is not None:
+            return Direct(None, self.err)
+        try:
+            return Direct(getattr(self.seq, name)(self._fn(f)))
+        except RecursionError:
+            raise
+        except Exception as ex:  # noqa  (only the streams derived from this one are lost)
+            return Direct(None, ex)
+
     def Select(self, f):
-        return Direct(self.seq.Select(self._fn(f)))
+        return self._op("Select", f)
 
     def Where(self, f):
-        return Direct(self.seq.Where(self._fn(f)))
+        return self._op("Where", f)
 
     def SelectMany(self, f):
-        return Direct(self.seq.SelectMany(self._fn(f)))
+        return self._op("SelectMany", f)
+
+    def _term(self, name, *args):
+        if self.err is not None:
+            return Direct(None, self.err)
+        return DirectOut(Term(name, self.seq, *args))
 
     @staticmethod
     def _cols(columns):
         return [columns] if isinstance(columns, str) else list(columns)
 
     def AsPandasDF(self, columns=[]):
-        return DirectOut(Term("ResultPandasDF", self.seq, self._cols(columns)))
+        return self._term("ResultPandasDF", self._cols(columns))
 
     def AsROOTTTree(self, filename, treename, columns=[]):
-        return DirectOut(Term("ResultTTree", self.seq, self._cols(columns), treename, filename))
+        return self._term("ResultTTree", self._cols(columns), treename, filename)
 
     def AsParquetFiles(self, filename, columns=[]):
-        return DirectOut(Term("ResultParquet", self.seq, self._cols(columns), filename))
+        return self._term("ResultParquet", self._cols(columns), filename)
 
     def AsAwkwardArray(self, columns=[]):
-        return DirectOut(Term("ResultAwkwardArray", self.seq, self._cols(columns)))
+        return self._term("ResultAwkwardArray", self._cols(columns))
 
     as_pandas = AsPandasDF
     as_ROOT_tree = AsROOTTTree
@@ -286,6 +302,8 @@ class Direct:
     as_awkward = AsAwkwardArray
 
     def value(self):
+        if self.err is not None:
+            raise self.err
         return self.seq
 
 
